@@ -400,30 +400,67 @@ def rnAddress (unit : Nat) (value : U16) : Exec U16 := do
   if r.br.toArray.getD unit 0 != 0 && r.m.toArray.getD unit 0 == 0 then return Alu.bitReverse value
   else return value
 
+/-- The step amount `s` and the two "step by 2" mode flags selected by the first `switch` of
+`StepAddress`. -/
+def stepAmount (r : Regs) (unit : Nat) (step : StepValue) : U16 × Bool × Bool :=
+  let legacy := r.cmd != 0
+  let brU := r.br.toArray.getD unit 0
+  let mU := r.m.toArray.getD unit 0
+  match step with
+  | .zero => (0, false, false)
+  | .increase => (1, false, false)
+  | .decrease => (0xFFFF, false, false)
+  | .increase2Mode1 => (2, !legacy, false)
+  | .decrease2Mode1 => (0xFFFE, !legacy, false)
+  | .increase2Mode2 => (2, false, !legacy)
+  | .decrease2Mode2 => (0xFFFE, false, !legacy)
+  | .plusStep =>
+    let s : U16 :=
+      if brU != 0 && mU == 0 then (if unit < 4 then r.stepi0 else r.stepj0)
+      else Alu.signExtend16 7 (if unit < 4 then r.stepi else r.stepj)
+    let s : U16 :=
+      if r.stp16 == 1 && !legacy then
+        let s0 := if unit < 4 then r.stepi0 else r.stepj0
+        if mU != 0 then Alu.signExtend16 9 s0 else s0
+      else s
+    (s, false, false)
+
+/-- `(1 << log2p1(m)) - 1` as a `u16` -/
+def lowMask (m : U16) : U16 := BitVec.ofNat 16 (2 ^ log2p1 m) - 1
+
+/-- One modulo step, TeakLite-compatible branch (`legacy || step2_mode2`). -/
+def modStepLegacy (mod s address : U16) (step2Mode2 : Bool) : U16 :=
+  let negative := (s >>> 15) != 0
+  let m : U16 := if negative then mod ||| ~~~s else mod ||| s
+  let mask := lowMask m
+  let next : U16 :=
+    if !negative then
+      if (address &&& mask) == mod && (!step2Mode2 || mod != mask) then 0
+      else (address + s) &&& mask
+    else
+      if (address &&& mask) == 0 && (!step2Mode2 || mod != mask) then mod
+      else (address + s) &&& mask
+  (address &&& ~~~mask) ||| next
+
+/-- One modulo step, Teak branch. -/
+def modStepNew (mod s address : U16) : U16 :=
+  let mask := lowMask mod
+  let next : U16 :=
+    if s.toNat < 0x8000 then
+      let next := (address + s) &&& mask
+      if next == ((mod + 1) &&& mask) then 0 else next
+    else
+      let next := address &&& mask
+      let next := if next == 0 then mod + 1 else next
+      (next + s) &&& mask
+  (address &&& ~~~mask) ||| next
+
 /-- Pure core of `StepAddress`. -/
 def stepAddressPure (r : Regs) (unit : Nat) (address : U16) (step : StepValue) (dmod : Bool) : U16 :=
   let legacy := r.cmd != 0
   let brU := r.br.toArray.getD unit 0
   let mU := r.m.toArray.getD unit 0
-  let (s, step2Mode1, step2Mode2) : U16 × Bool × Bool :=
-    match step with
-    | .zero => (0, false, false)
-    | .increase => (1, false, false)
-    | .decrease => (0xFFFF, false, false)
-    | .increase2Mode1 => (2, !legacy, false)
-    | .decrease2Mode1 => (0xFFFE, !legacy, false)
-    | .increase2Mode2 => (2, false, !legacy)
-    | .decrease2Mode2 => (0xFFFE, false, !legacy)
-    | .plusStep =>
-      let s : U16 :=
-        if brU != 0 && mU == 0 then (if unit < 4 then r.stepi0 else r.stepj0)
-        else Alu.signExtend16 7 (if unit < 4 then r.stepi else r.stepj)
-      let s : U16 :=
-        if r.stp16 == 1 && !legacy then
-          let s0 := if unit < 4 then r.stepi0 else r.stepj0
-          if mU != 0 then Alu.signExtend16 9 s0 else s0
-        else s
-      (s, false, false)
+  let (s, step2Mode1, step2Mode2) := stepAmount r unit step
   if s == 0 then address
   else if !dmod && brU == 0 && mU != 0 then
     let mod := if unit < 4 then r.modi else r.modj
@@ -433,29 +470,8 @@ def stepAddressPure (r : Regs) (unit : Nat) (address : U16) (step : StepValue) (
       let (iteration, s) : Nat × U16 :=
         if step2Mode1 then (2, Alu.signExtend16 15 (s >>> 1)) else (1, s)
       let once (address : U16) : U16 :=
-        if legacy || step2Mode2 then
-          let negative := (s >>> 15) != 0
-          let m : U16 := if negative then mod ||| ~~~s else mod ||| s
-          let mask : U16 := BitVec.ofNat 16 (2 ^ log2p1 m) - 1
-          let next : U16 :=
-            if !negative then
-              if (address &&& mask) == mod && (!step2Mode2 || mod != mask) then 0
-              else (address + s) &&& mask
-            else
-              if (address &&& mask) == 0 && (!step2Mode2 || mod != mask) then mod
-              else (address + s) &&& mask
-          (address &&& ~~~mask) ||| next
-        else
-          let mask : U16 := BitVec.ofNat 16 (2 ^ log2p1 mod) - 1
-          let next : U16 :=
-            if s.toNat < 0x8000 then
-              let next := (address + s) &&& mask
-              if next == ((mod + 1) &&& mask) then 0 else next
-            else
-              let next := address &&& mask
-              let next := if next == 0 then mod + 1 else next
-              (next + s) &&& mask
-          (address &&& ~~~mask) ||| next
+        if legacy || step2Mode2 then modStepLegacy mod s address step2Mode2
+        else modStepNew mod s address
       if iteration == 2 then once (once address) else once address
   else address + s
 
